@@ -78,24 +78,62 @@ def typenum(s):
     except IndexError:
         return None
 
+_ALIASES = [
+    (re.compile(r"CoreWrapper<CtVariableCoreWrapper<Sha512VarCore, U48, OidSha384>>"), "Sha384"),
+    (re.compile(r"CoreWrapper<CtVariableCoreWrapper<Sha512VarCore, U64, OidSha512>>"), "Sha512"),
+    (re.compile(r"CoreWrapper<HmacCore<Sha384>>"), "Hmac<Sha384>"),
+    (re.compile(r"CoreWrapper<CtVariableCoreWrapper<Blake2bVarCore, (U\d+)>>"), r"Blake2b<\1>"),
+    (re.compile(r"StreamCipherCoreWrapper<XChaChaCore<U10>>"), "XChaCha20"),
+    (re.compile(r"StreamCipherCoreWrapper<CtrCore<Aes256, (Ctr\d+[BL]E)>>"), r"\1<Aes256>"),
+    (re.compile(r"ChaChaPoly1305<XChaCha20, U24>"), "XChaCha20Poly1305"),
+]
+_SHORT_CACHE = {}
 def short(s):
-    """Shorten a fully-qualified type/path string for display; typenums decoded."""
-    def tn(m):
-        v = typenum(m.group(0))
-        return f"U{v}" if v is not None else m.group(0)
-    # replace innermost-first typenum terms
-    prev = None
-    s2 = re.sub(r"(?:[a-z_0-9]+::)+(?=[A-Za-z_]|<impl)", "", s)
+    """Shorten a fully-qualified type/path string for display; typenums decoded, RustCrypto aliases folded."""
+    r = _SHORT_CACHE.get(s)
+    if r is not None:
+        return r
+    s2 = re.sub(r"(?<![A-Za-z0-9_])(?:[a-z_][a-z_0-9]*::)+(?=[A-Za-z_]|<impl)", "", s)
     pat = re.compile(r"UInt<(?:UTerm|U\d+), ?B[01]>")
     s2 = s2.replace("UTerm", "U0")
+    prev = None
     while prev != s2:
         prev = s2
         def rep(m):
-            inner = m.group(0)
-            mm = re.match(r"UInt<U(\d+), ?B([01])>", inner)
+            mm = re.match(r"UInt<U(\d+), ?B([01])>", m.group(0))
             return f"U{int(mm.group(1))*2+int(mm.group(2))}"
         s2 = pat.sub(rep, s2)
+    for rx, to in _ALIASES:
+        s2 = rx.sub(to, s2)
+    _SHORT_CACHE[s] = s2
     return s2
+
+def qshort(full):
+    """Like short() but keeps the module path of the item itself (only generic arguments are shortened),
+    so `aws_lc_rs::hmac::Context::update` and `aws_lc_rs::digest::Context::update` stay distinct."""
+    if full.startswith("<"):
+        return short(full)
+    out, depth, buf = [], 0, []
+    for ch in full:
+        if ch == "<":
+            if depth == 0:
+                buf = []
+            else:
+                buf.append(ch)
+            depth += 1
+            continue
+        elif ch == ">" and depth > 0:
+            depth -= 1
+            if depth == 0:
+                out.append("<" + short("".join(buf)) + ">")
+                continue
+            buf.append(ch)
+            continue
+        if depth > 0:
+            buf.append(ch)
+        else:
+            out.append(ch)
+    return "".join(out)
 
 # ---------------------------------------------------------------- pretty printer
 def fmt_place(cr, p):
